@@ -4,7 +4,7 @@ Require Extraction.
 Require Import ExtrOcamlBasic.
 From NV Require Import Base.Result Base.Bytes Base.PyPrims Model.Crc Model.Frames.
 Cd "../extract/ml".
-Extraction "model.ml"
+Extraction "c14.ml"
   Model.Crc.calculate_crc Model.Crc.add_crc_a Model.Crc.add_crc_b Model.Crc.check_crc_a Model.Crc.check_crc_b
   Model.Crc.iso_crc_a Model.Crc.iso_crc_b
   Model.Frames.pn53x_build Model.Frames.pn53x_parse Model.Frames.host_frame_ok Model.Frames.pn53x_response
